@@ -73,6 +73,7 @@ func (t *tr) lookupOutParam(callee string) (OutParam, bool) {
 type FuncSpec struct {
 	Auto      bool              // inferred spec of a helper found by autofollow.go (emitted as `@[simp] def`)
 	AutoOwn   bool              // a helper that autofollow.go has already emitted into ANOTHER namespace (a second model of the same Go function) is emitted into this group's namespace as well
+	AutoCtx   []string          // model-only context parameters (`(o : SessOracles)`) that helpers found by autofollow.go inherit and are called with
 	File      string            // path relative to repo root
 	Name      string            // Go name, "Recv.Name" for methods
 	Lean      string            // Lean definition name
